@@ -1497,6 +1497,10 @@ func (t *Table) SetRowHeight(rowIndex int, config *RowHeightConfig) error {
 		return fmt.Errorf("行索引无效：%d，表格共有%d行", rowIndex, len(t.Rows))
 	}
 
+	if config == nil {
+		return fmt.Errorf("行高配置不能为空")
+	}
+
 	row := &t.Rows[rowIndex]
 	if row.Properties == nil {
 		row.Properties = &TableRowProperties{}
